@@ -4,6 +4,7 @@
 //!   verif worker <engine>                 (internal) shard process
 //!   verif replay <file>                   re-execute a recorded violation / known finding
 
+mod c07_e2;
 mod c13;
 mod c14;
 mod c16;
@@ -119,9 +120,11 @@ fn worker_dispatch(engine: &str) -> Box<dyn Fn(&Value) -> Value> {
         "c14_pair" => Box::new(c14::pair_cell),
         "c16_wire" => Box::new(c16::wire_cell),
         "c16_cfg" => Box::new(c16::config_cell),
+        "c07_e2" => Box::new(c07_e2::cell),
         "c13_fsize" => Box::new(c13::fsize_cell),
         "c13_two" => Box::new(c13::two_cell),
         "c13_e2" => Box::new(c13::e2_cell),
+        "c13_e2_abort" => Box::new(c13::e2_abort_cell),
         "e2_xfer" => Box::new(e2_xfer::cell),
         "c03" => Box::new(e2_c03::cell),
         "c05" => Box::new(e2_c05::cell),
@@ -194,6 +197,7 @@ fn replay(path: &str) -> i32 {
         "modea" => e1_checks::replay(r),
         "modeb" => e1b_checks::replay(r),
         "c14" | "c14_bin" | "c14_pair" => c14::replay(r),
+        "c07_e2" => c07_e2::replay(r),
         "c13_two" => c13::replay_two(r),
         "c13_e2" => c13::replay_e2(r),
         "e2_xfer" => e2_xfer::replay(r),
